@@ -14,6 +14,7 @@
 
 pub mod bytes;
 pub mod encode;
+pub mod panics;
 pub mod exercise_hdr;
 pub mod exercise_mbi;
 pub mod expect_hdr;
